@@ -25,6 +25,14 @@ type frame struct {
 	lastFork  map[*ssa.BasicBlock]int
 	callPos   token.Pos
 	phiOverride map[*ssa.Phi]value
+	defers    []deferredCall // calls registered by defer statements, run in reverse order at RunDefers
+}
+
+// deferredCall is a call registered by a defer statement: function value and arguments are fixed at the statement.
+type deferredCall struct {
+	fn   value
+	args []value
+	pos  token.Pos
 }
 
 func (fr *frame) get(key ssa.Value) value {
@@ -424,7 +432,13 @@ func (ex *Exec) visitInstr(fr *frame, instr ssa.Instruction) bool {
 		return true
 
 	case *ssa.RunDefers:
-		// no Defer support => nothing to run
+		// normal return: the deferred calls run last-in first-out (a path that ends in a panic obligation ends
+		// there; recover() is not modelled)
+		for i := len(fr.defers) - 1; i >= 0; i-- {
+			d := fr.defers[i]
+			ex.callValue(fr, d.pos, d.fn, d.args)
+		}
+		fr.defers = nil
 
 	case *ssa.Panic:
 		x := fr.get(instr.X)
@@ -459,7 +473,8 @@ func (ex *Exec) visitInstr(fr *frame, instr ssa.Instruction) bool {
 		return true
 
 	case *ssa.Defer:
-		panic(ex.unsupported("defer in " + fr.fn.String()))
+		fn, args := ex.prepareCall(fr, instr.Pos(), &instr.Call)
+		fr.defers = append(fr.defers, deferredCall{fn: fn, args: args, pos: instr.Pos()})
 
 	case *ssa.Go:
 		panic(ex.unsupported("go statement"))
